@@ -425,81 +425,7 @@ def run(F, rep, tier):
                           "feel-number/src/dec.rs")
 
     # ---------------- R02.3
-    nctx = 0
-    deref_name = "<dmntk_feel_number::dec::DEFAULT_CONTEXT as core::ops::deref::Deref>::deref"
-    for n, b in F.bodies.items():
-        if not b["_crate"].startswith("dmntk_feel_number"):
-            continue
-        B = mirutil.Body(F, b)
-        for bi, c in F.body_calls(b):
-            ff = F.foreign.get(c["f"].get("p"))
-            if ff is None and c["f"].get("k") == "fnptr" and c["f"].get("ty") is not None:
-                # a library function applied through a typed `extern "C" fn` pointer (a generic helper taking the operation as a parameter)
-                pty = F.ty(b, c["f"]["ty"])
-                m = re.match(r'^(?:for<[^>]*>\s*)?(?:unsafe\s+)?extern "C" fn\((.*)\)(?:\s*->.*)?$', pty)
-                if m:
-                    ff = {"sym": "(library function passed as a parameter)", "inputs": [x.strip() for x in m.group(1).split(",")]}
-            if ff is None or "inputs" not in ff:
-                continue
-            for i, (ty, arg) in enumerate(zip(ff["inputs"], c["args"])):
-                if "DecContext" not in ty:
-                    continue
-                nctx += 1
-                key = "%s:%s" % (n.split("::")[-1], ff["sym"])
-                roots = B.pointer_root(arg)
-                ok = bool(roots)
-                why = ""
-                for r in roots:
-                    if r[0] != "local":
-                        ok = False
-                        why = "context pointer derives from %s" % (r,)
-                        continue
-                    src = B.local_value_sources(r[1])
-                    if ff["sym"] == "decContextDefault":
-                        if not all(s[0] == "call" and s[1].endswith("Default>::default") for s in src):
-                            ok = False
-                            why = "decContextDefault initialises %s" % sorted(src)
-                        continue
-                    if not src or not all(s[0] == "call" and s[1].endswith("DecContext as core::clone::Clone>::clone") for s in src):
-                        ok = False
-                        why = "context value comes from %s, not from a clone of the default context" % sorted(map(str, src))
-                        continue
-                    # the clone's receiver must be the lazily initialised default context
-                    for (dbi, dsi, kind, st) in B.defs.get(r[1], []):
-                        if kind == "call":
-                            rr = B.pointer_root(st["args"][0]) if st["args"] else set()
-                            if not rr or not all(x == ("call", deref_name) for x in rr):
-                                ok = False
-                                why = "clone of %s, not of DEFAULT_CONTEXT" % sorted(map(str, rr))
-                if ok:
-                    rep.ok(r3, key, "fresh clone of DEFAULT_CONTEXT")
-                else:
-                    rep.violation(r3, key, "%s calls %s with a context that is not a private pristine copy: %s" % (n, ff["sym"], why), "%s:%s" % (b["file"], c.get("line")))
-        # writes to DecContext fields from Rust
-        if "Default>::default" in n or "Clone>::clone" in n:
-            continue
-        for bl in b["blocks"]:
-            for st in bl["s"]:
-                if st[0] == "A" and len(st[1]) > 1:
-                    base = B.local_ty(st[1][0])
-                    if "DecContext" in base and any(isinstance(e, list) and e[0] == "." for e in st[1][1:]):
-                        rep.violation(r3, "write:%s" % n, "%s writes a field of a DecContext (rounding/precision can be changed behind the library's back)" % n, "%s:%s" % (b["file"], st[3] if len(st) > 3 else b["line"]))
-    # 30 on the pinned tree; the floor leaves room for wrappers being folded into generic helpers (each helper's call through the pointer is counted once)
-    rep.floor(r3, "FFI context arguments", nctx, 18)
-    init_fn = [n for n in F.hir if n.startswith("<dmntk_feel_number::dec::DEFAULT_CONTEXT as ") and n.endswith("__static_ref_initialize")]
-    if not init_fn:
-        rep.missing_anchor(r3, "initialiser of DEFAULT_CONTEXT")
-    else:
-        calls = [c.get("callee") for c, _ in find_hir(F.hir[init_fn[0]]["body"], lambda x: x.get("k") == "Call")]
-        if calls == [DEC + "dec_context_default"]:
-            h = F.hir.get(DEC + "dec_context_default")
-            kinds = [strip(c["args"][1]) for c, _ in find_hir(h["body"], lambda x: x.get("k") == "Call" and (x.get("callee") or "").endswith("decContextDefault"))]
-            if len(kinds) == 1 and kinds[0].get("k") == "Path" and kinds[0].get("path", "").endswith("DEC_INIT_DECQUAD"):
-                rep.ok(r3, "DEFAULT_CONTEXT:init", "decContextDefault(.., DEC_INIT_DECQUAD)")
-            else:
-                rep.violation(r3, "DEFAULT_CONTEXT:init", "the default context is initialised with kind %s, not DEC_INIT_DECQUAD" % kinds, "feel-number/src/dec.rs")
-        else:
-            rep.violation(r3, "DEFAULT_CONTEXT:init", "DEFAULT_CONTEXT is initialised by %s" % calls, "feel-number/src/dec.rs")
+    context_privacy_rule(F, rep, r3)
 
     # ---------------- R02.4 / R02.5
     W = WrapperSem(F, rc)
@@ -915,3 +841,84 @@ def method_value(F, W, h, _stack=(), inline=True):
     from facts import walk_hir
     walk_hir(h["body"], visit)
     return acc
+
+
+
+def context_privacy_rule(F, rep, r3):
+    """R02.3 (also a premise of C07: text -> number conversion must not depend on an earlier conversion)"""
+    # ---------------- R02.3
+    nctx = 0
+    deref_name = "<dmntk_feel_number::dec::DEFAULT_CONTEXT as core::ops::deref::Deref>::deref"
+    for n, b in F.bodies.items():
+        if not b["_crate"].startswith("dmntk_feel_number"):
+            continue
+        B = mirutil.Body(F, b)
+        for bi, c in F.body_calls(b):
+            ff = F.foreign.get(c["f"].get("p"))
+            if ff is None and c["f"].get("k") == "fnptr" and c["f"].get("ty") is not None:
+                # a library function applied through a typed `extern "C" fn` pointer (a generic helper taking the operation as a parameter)
+                pty = F.ty(b, c["f"]["ty"])
+                m = re.match(r'^(?:for<[^>]*>\s*)?(?:unsafe\s+)?extern "C" fn\((.*)\)(?:\s*->.*)?$', pty)
+                if m:
+                    ff = {"sym": "(library function passed as a parameter)", "inputs": [x.strip() for x in m.group(1).split(",")]}
+            if ff is None or "inputs" not in ff:
+                continue
+            for i, (ty, arg) in enumerate(zip(ff["inputs"], c["args"])):
+                if "DecContext" not in ty:
+                    continue
+                nctx += 1
+                key = "%s:%s" % (n.split("::")[-1], ff["sym"])
+                roots = B.pointer_root(arg)
+                ok = bool(roots)
+                why = ""
+                for r in roots:
+                    if r[0] != "local":
+                        ok = False
+                        why = "context pointer derives from %s" % (r,)
+                        continue
+                    src = B.local_value_sources(r[1])
+                    if ff["sym"] == "decContextDefault":
+                        if not all(s[0] == "call" and s[1].endswith("Default>::default") for s in src):
+                            ok = False
+                            why = "decContextDefault initialises %s" % sorted(src)
+                        continue
+                    if not src or not all(s[0] == "call" and s[1].endswith("DecContext as core::clone::Clone>::clone") for s in src):
+                        ok = False
+                        why = "context value comes from %s, not from a clone of the default context" % sorted(map(str, src))
+                        continue
+                    # the clone's receiver must be the lazily initialised default context
+                    for (dbi, dsi, kind, st) in B.defs.get(r[1], []):
+                        if kind == "call":
+                            rr = B.pointer_root(st["args"][0]) if st["args"] else set()
+                            if not rr or not all(x == ("call", deref_name) for x in rr):
+                                ok = False
+                                why = "clone of %s, not of DEFAULT_CONTEXT" % sorted(map(str, rr))
+                if ok:
+                    rep.ok(r3, key, "fresh clone of DEFAULT_CONTEXT")
+                else:
+                    rep.violation(r3, key, "%s calls %s with a context that is not a private pristine copy: %s" % (n, ff["sym"], why), "%s:%s" % (b["file"], c.get("line")))
+        # writes to DecContext fields from Rust
+        if "Default>::default" in n or "Clone>::clone" in n:
+            continue
+        for bl in b["blocks"]:
+            for st in bl["s"]:
+                if st[0] == "A" and len(st[1]) > 1:
+                    base = B.local_ty(st[1][0])
+                    if "DecContext" in base and any(isinstance(e, list) and e[0] == "." for e in st[1][1:]):
+                        rep.violation(r3, "write:%s" % n, "%s writes a field of a DecContext (rounding/precision can be changed behind the library's back)" % n, "%s:%s" % (b["file"], st[3] if len(st) > 3 else b["line"]))
+    # 30 on the pinned tree; the floor leaves room for wrappers being folded into generic helpers (each helper's call through the pointer is counted once)
+    rep.floor(r3, "FFI context arguments", nctx, 18)
+    init_fn = [n for n in F.hir if n.startswith("<dmntk_feel_number::dec::DEFAULT_CONTEXT as ") and n.endswith("__static_ref_initialize")]
+    if not init_fn:
+        rep.missing_anchor(r3, "initialiser of DEFAULT_CONTEXT")
+    else:
+        calls = [c.get("callee") for c, _ in find_hir(F.hir[init_fn[0]]["body"], lambda x: x.get("k") == "Call")]
+        if calls == [DEC + "dec_context_default"]:
+            h = F.hir.get(DEC + "dec_context_default")
+            kinds = [strip(c["args"][1]) for c, _ in find_hir(h["body"], lambda x: x.get("k") == "Call" and (x.get("callee") or "").endswith("decContextDefault"))]
+            if len(kinds) == 1 and kinds[0].get("k") == "Path" and kinds[0].get("path", "").endswith("DEC_INIT_DECQUAD"):
+                rep.ok(r3, "DEFAULT_CONTEXT:init", "decContextDefault(.., DEC_INIT_DECQUAD)")
+            else:
+                rep.violation(r3, "DEFAULT_CONTEXT:init", "the default context is initialised with kind %s, not DEC_INIT_DECQUAD" % kinds, "feel-number/src/dec.rs")
+        else:
+            rep.violation(r3, "DEFAULT_CONTEXT:init", "DEFAULT_CONTEXT is initialised by %s" % calls, "feel-number/src/dec.rs")
